@@ -56,14 +56,14 @@ Local Fixpoint pat_from (n : nat) (b : N) : list N :=
 
 (* the published vector of the reference implementation, seed 0: 2 whole blocks + 11 tail bytes *)
 Example C10_kernel_kat_fox :
-  c_murmur3_x64_128 400 0 (str "The quick brown fox jumps over the lazy dog") [1; 2; 3] =
+  c_murmur3_x64_128 (N.to_nat 100000) 0 (str "The quick brown fox jumps over the lazy dog") [1; 2; 3] =
   Some [0xe34bbc7bbc071b6c; 0x7a433ca9c49a9347].
 Proof. vm_compute. reflexivity. Qed.
 
 (* 1025 pattern bytes, seed 0x9747b28c (64 blocks and a 1-byte tail; value of the built library,
    see Spec/Murmur3.v mur_kat_s1_1025) *)
 Example C10_kernel_kat_1025 :
-  c_murmur3_x64_128 4000 0x9747b28c (pat_from 1025 3) [] = Some [0x0d6638e3075e5e1a; 0xb1fc213e8de82267].
+  c_murmur3_x64_128 (N.to_nat 100000) 0x9747b28c (pat_from 1025 3) [] = Some [0x0d6638e3075e5e1a; 0xb1fc213e8de82267].
 Proof. vm_compute. reflexivity. Qed.
 
 (* too little fuel is an error, not a wrong digest *)
